@@ -103,6 +103,10 @@ func genC14(ref core.CaseRef, r *rand.Rand) *c14Case {
 				for _, v := range []float64{1.5, 2.5, -0.25}[:2+r.Intn(2)] {
 					doms[i] = append(doms[i], v)
 				}
+				if r.Intn(3) == 0 {
+					// numeric ids as a JSON decoder delivers them: neighbours beyond single precision
+					doms[i] = []any{16777216.0, 16777217.0, 20000001.5, 20000002.5}[:2+r.Intn(3)]
+				}
 			case 2:
 				for j, n := 0, 2+r.Intn(3); j < n; j++ {
 					doms[i] = append(doms[i], pick(r, plainKeys))
